@@ -30,14 +30,14 @@ from .common import symbolic_run, Vals
 PROPERTY = "C18"
 
 SHAPES = {"s": (), "z": (), "1": (4,), "2": (2, 3), "3": (2, 2, 2)}     # "z": rank-0 NumPy arrays (mutable scalars)
-KINDS = {"1": ["B", "T", "I", "N"], "2": ["B", "T", "I", "N", "P", "M"], "3": ["B", "T", "I", "N", "P", "M"]}
+KINDS = {"1": ["B", "T", "I", "N", "R"], "2": ["B", "T", "I", "N", "P", "M", "R"], "3": ["B", "T", "I", "N", "P", "M"]}
 OPS_SCALAR = ["stA", "seA", "adA", "adAB", "adN", "rsA", "rsAk", "rsAn"]
 OPS_ARRAY = OPS_SCALAR + ["mut", "sl", "sl2", "nest", "adS", "rsS", "stS", "seS"]
 
 BOUNDS = {
     "quick": dict(history_length=4, shapes=["scalar", "rank-0 array", "(4,)", "(2,3)", "(2,2,2)"], dtypes=["real", "complex"],
                   slice_kinds="B basic, T tuple of slices, I integer array (no repeats), N single integer, "
-                              "P tuple of integer arrays (rank>=2), M basic slice mixed with an integer array (rank>=2; NumPy returns "
+                              "R reversed basic slice (negative step), P tuple of integer arrays (rank>=2), M basic slice mixed with an integer array (rank>=2; NumPy returns "
                               "a copy whose .base is not None); nested basic slice on B/T/N parents; two slice "
                               "kinds (primary/secondary) can be live at the same time",
                   initial="A with and without an initial sensitivity (keep_alloc True/False)",
@@ -75,10 +75,11 @@ REPLAYS_PER_GROUP = 2
 def spec(shape_key, kind):
     """Index object for A[...]."""
     if shape_key == "1":
-        return {"B": slice(1, 3), "T": (slice(0, 4, 2),), "I": np.array([3, 0, 2]), "N": 2}[kind]
+        return {"B": slice(1, 3), "T": (slice(0, 4, 2),), "I": np.array([3, 0, 2]), "N": 2, "R": slice(None, None, -1)}[kind]
     if shape_key == "2":
         return {"B": slice(0, 1), "T": (slice(None), slice(1, 3)), "I": np.array([1, 0]), "N": 1,
-                "P": (np.array([0, 1]), np.array([2, 0])), "M": (slice(None), np.array([2, 0]))}[kind]
+                "P": (np.array([0, 1]), np.array([2, 0])), "M": (slice(None), np.array([2, 0])),
+                "R": (slice(None), slice(None, None, -1))}[kind]
     if shape_key == "3":
         return {"B": slice(1, 2), "T": (slice(None), slice(0, 1), slice(None)), "I": np.array([1, 0]), "N": 0,
                 "P": (np.array([1, 0]), np.array([0, 1]), np.array([1, 1])),
@@ -89,8 +90,8 @@ def spec(shape_key, kind):
 def nested_spec(shape_key, kind):
     """Basic index applied to the result of spec(shape_key, kind); None if the parent is not nestable."""
     tab = {
-        "1": {"B": slice(1, None), "T": slice(0, 1)},
-        "2": {"B": (slice(None), slice(0, 2)), "T": (1, slice(None)), "N": slice(1, 3)},
+        "1": {"B": slice(1, None), "T": slice(0, 1), "R": slice(2, None)},          # x[::-1][2:] reaches entry 0
+        "2": {"B": (slice(None), slice(0, 2)), "T": (1, slice(None)), "N": slice(1, 3), "R": (slice(None), slice(1, None))},
         "3": {"B": (0, slice(None), slice(1, 2)), "T": (slice(0, 1), 0), "N": (slice(None), 1)},
     }
     return tab[shape_key].get(kind)
